@@ -99,7 +99,12 @@ type Set struct {
 
 // BuildSet commits the validators to a fresh state and opens a reader on it.
 func BuildSet(specs []ValSpec) (*Set, error) {
-	db := state.NewDatabase(youdb.NewMemDatabase())
+	return BuildSetOn(state.NewDatabase(youdb.NewMemDatabase()), specs)
+}
+
+// BuildSetOn commits the validators as a state of their own into an existing state
+// database (several look-back sets of one chain live in one database).
+func BuildSetOn(db state.Database, specs []ValSpec) (*Set, error) {
 	st, err := state.New(common.Hash{}, common.Hash{}, common.Hash{}, db)
 	if err != nil {
 		return nil, err
